@@ -97,6 +97,38 @@ class Leaf:
 
 
 KEYMAP_DEFAULT = {}
+FN_KEYS = ("uf1", "ufs", "uf2", "uf3")
+QUERY_SLOTS = ("query", "filter", "sort", "q", "u", "update", "updates", "deletes", "documents")
+
+
+def fn_claimed(path):
+    """C15: is an object key at this path (path = position of the object holding the key) one of the positions the
+    statement names - keys of the query predicate, update specification, inserted documents, sort document and of
+    $match / $sort stages?  (Keys introduced by $group / $project / $set ... are output-field names: not claimed.)"""
+    if len(path) < 3 or path[0] != "attr" or path[1] not in HOLDERS_:
+        return False
+    slot = path[2]
+    rest = path[3:]
+    stage_keys = [p for p in rest if isinstance(p, str) and p.startswith("$")]
+    if slot in ("query", "filter", "sort", "q", "deletes", "documents"):
+        return not any(k in ("$expr",) for k in stage_keys)
+    if slot in ("update", "u", "updates"):
+        # operator form / replacement form; the pipeline form only under $match / $sort
+        if any(isinstance(p, int) for p in rest[:2]) and slot != "updates":
+            return bool(stage_keys) and stage_keys[0] in ("$match", "$sort")
+        if slot == "updates":
+            r2 = rest[1:]            # skip the statement index
+            if r2 and r2[0] == "u" and len(r2) > 1 and isinstance(r2[1], int):
+                sk = [p for p in r2[2:] if isinstance(p, str) and p.startswith("$")]
+                return bool(sk) and sk[0] in ("$match", "$sort")
+            return r2[:1] in (["q"], ["u"], ("q",), ("u",)) or (r2 and r2[0] in ("q", "u"))
+        return True
+    if slot == "pipeline":
+        return bool(stage_keys) and stage_keys[0] in ("$match", "$sort") and "$expr" not in stage_keys
+    return False
+
+
+HOLDERS_ = ("command", "cmd", "originatingCommand")
 
 
 class Concretiser:
@@ -115,6 +147,10 @@ class Concretiser:
         self._keys = {}
         self._long_used = False
         self._nsn = None
+        self._fam = None
+        self._has_insert = True
+        self.fn_style = False
+        self.nsrel_by_variant = False
         self.ns_style = False
         self.exotic_keys = True
 
@@ -151,6 +187,11 @@ class Concretiser:
             node, tok = ('str', local + "@" + dom), local
         elif cls == "empty":
             node = ('str', "")
+        elif cls == "dollar" and self.fn_style and not m:
+            okz = lab == "ref" and in_zone(path) and not (path[2] == "documents" and not self._has_insert)
+            name = self.fn_family()[self.n % 4] if okz else "Ufn%dr" % self.idx
+            s = "$" + name
+            node, tok = ('str', s), name
         elif cls == "dollar":
             s = ("$zzsecret%d" % idn) if m else ("$zr%dx" % idn if v == 0 else rng.choice(["$zr%dx", "$zr%dx.sub", "$$zr%dx"]) % idn)
             node, tok = ('str', s), s.lstrip("$").split(".")[0]
@@ -199,7 +240,7 @@ class Concretiser:
             s = "203.0.113.%d:%d" % (idn % 250 + 1, 40000 + idn % 20000)
             node, tok = ('str', s), s
         elif cls == "plan":
-            node = ('str', "IXSCAN { uf1: 1, uf2.sub: -1 }")
+            node = ('str', self.fn_plan() if self.fn_style else "IXSCAN { uf1: 1, uf2.sub: -1 }")
         elif cls == "num":
             if lab == "env":
                 node = ('num', rng.choice(["7469113720208097282", "1E5", "-0.0", "1e400", "12345678901234567890123", "0.1000", "43", "-7", "2.50e-3"]) if v else "43")
@@ -222,6 +263,32 @@ class Concretiser:
             self._keys[k] = self.rng.choice(KEY_STYLES) % k
         return self._keys[k]
 
+    # ---- field-name redaction (C15): planted identifiers
+    def fn_family(self):
+        if self._fam is None:
+            i, v = self.idx, self.variant
+            fams = [["Zfn%da" % i, "Zfn%db" % i, "Zfn%dc" % i, "Zfn%dd" % i],
+                    ["a", "ab", "abc", "b"],
+                    ["IX", "SCAN", "IXSCAN", "X"],
+                    ["deadbeef", "cafe01", "0123456789abcdef", "beef"],
+                    ["Zfn%da.sub" % i, "a.b", "Zfn%da.Zfn%db" % (i, i), "b.a.b"],
+                    ["abcdefghijklmnopqrst", "abcdefghij", "klmnopqrst", "Zfn%de" % i]]
+            self._fam = fams[0] if v == 0 else fams[self.rng.randrange(len(fams))]
+        return self._fam
+
+    def fn_name(self, k, path):
+        idx = FN_KEYS.index(k)
+        if fn_claimed(path) and not (len(path) > 2 and path[2] == "documents" and not self._has_insert):
+            return self.fn_family()[idx % 4]
+        return "Ufn%d%s" % (self.idx, "klmn"[idx % 4])
+
+    def fn_plan(self):
+        n = self.fn_family()
+        forms = ["IXSCAN { %s: 1 }" % n[0], "IXSCAN { %s: 1, %s: -1 }" % (n[0], n[1]),
+                 "IXSCAN { %s: 1 }, IXSCAN { %s: 1, %s: 1 }" % (n[0], n[1], n[2]), "COLLSCAN", "IDHACK",
+                 "IXSCAN  {  %s :  1 ,%s:-1}" % (n[0], n[3]), "SORT_MERGE IXSCAN { %s: \"2d\" }" % n[2]]
+        return forms[1] if self.variant == 0 else self.rng.choice(forms)
+
     def ns_names(self):
         """Per-line planted names (C12): database, collection, a second database and collection; shapes by variant."""
         if self._nsn is None:
@@ -237,6 +304,8 @@ class Concretiser:
 
     def ns_parts(self):
         rel = self.nsrel or self._nsrel_hint
+        if self.nsrel_by_variant:
+            rel = ("nseq", "nsprefix", "nsother")[self.variant % 3]
         if rel == "nsother":
             return "dbQx", "collQx"
         if rel == "nsprefix":
@@ -249,7 +318,9 @@ class Concretiser:
                 kv = []
                 for k, v in tree["o"]:
                     k2 = self.keymap.get(k, k)
-                    if self.variant > 0 and k2 in EXOTIC_KEYS and self.exotic_keys:
+                    if self.fn_style and k2 in FN_KEYS:
+                        k2 = self.fn_name(k2, path)
+                    elif self.variant > 0 and k2 in EXOTIC_KEYS and self.exotic_keys:
                         k2 = self.key_for(k2)
                     kv.append((k2, self.build(v, path + (k2,))))
                 return ('obj', kv)
@@ -260,6 +331,7 @@ class Concretiser:
         # attr.ns decides the names used by every namespace leaf of the line
         self._nsrel_hint = "nseq"
         s = json.dumps(tree)
+        self._has_insert = '["insert"' in s
         for rel in ("nsother", "nsprefix", "nseq"):
             if '"%s"' % rel in s:
                 self._nsrel_hint = rel
@@ -461,7 +533,7 @@ def drift(pred, actual, cfg):
 
 
 class Result:
-    __slots__ = ("rec", "variant", "cfg", "inp", "leaves", "line", "raw", "_out", "crash", "pred", "_al", "gid")
+    __slots__ = ("rec", "variant", "cfg", "inp", "leaves", "line", "raw", "_out", "crash", "pred", "_al", "gid", "cfam")
 
     @property
     def out(self):
@@ -518,8 +590,10 @@ def process_chunk(args):
                 gid = (chunk_no * len(recs) + i) * nvar + v if False else len(cases)
                 c = Concretiser(seed, chunk_no * 100000 + i, v, keymap=keymap, styles=opts.get("styles"))
                 c.ns_style = bool(opts.get("ns_style"))
+                c.fn_style = bool(opts.get("fn_style"))
+                c.nsrel_by_variant = bool(opts.get("fn_style"))
                 tree = c.line(rec["in"], gid)
-                cases.append((rec, v, tree, c.leaves, jsonx.dumps(tree)))
+                cases.append((rec, v, tree, c.leaves, jsonx.dumps(tree), tuple(c._fam or ())))
         lines = [c[4] for c in cases]
         ids = list(range(len(cases)))
         keyfile = os.path.join(workdir, "k.key")
@@ -531,8 +605,9 @@ def process_chunk(args):
             for s in stray[:2]:
                 if len(res["stray_samples"]) < 3:
                     res["stray_samples"].append({"cfg": cfg.name, "line": s[0][:500], "why": s[1]})
-            for gid, (rec, v, tree, leaves, text) in enumerate(cases):
+            for gid, (rec, v, tree, leaves, text, fam) in enumerate(cases):
                 r = Result()
+                r.cfam = fam
                 r.rec, r.variant, r.cfg, r.inp, r.leaves, r.line = rec, v, cfg, tree, leaves, text
                 r.raw = got.get(gid)
                 r._out = None
@@ -574,9 +649,9 @@ def process_chunk(args):
 class Replay:
     """Streams TLC records into a process pool; merges what the workers report into a common.Verdict."""
 
-    def __init__(self, build, verdict, cfgs, judge_name, variants=1, chunk=1500, keymap=None, styles=None, drift=True, worker=None, ns_style=False):
+    def __init__(self, build, verdict, cfgs, judge_name, variants=1, chunk=1500, keymap=None, styles=None, drift=True, worker=None, ns_style=False, fn_style=False):
         self.b, self.v, self.cfgs = build, verdict, cfgs
-        self.opts = {"seed": verdict.seed, "variants": variants, "keymap": keymap, "styles": styles, "drift": drift, "ns_style": ns_style}
+        self.opts = {"seed": verdict.seed, "variants": variants, "keymap": keymap, "styles": styles, "drift": drift, "ns_style": ns_style, "fn_style": fn_style}
         self.pool = multiprocessing.get_context("fork").Pool(
             common.NCPU, initializer=_worker_init,
             initargs=({"cli": build.cli, "root": build.root}, cfgs, judge_name, self.opts))
